@@ -43,6 +43,19 @@ func VerifC02Messages() {
 			has2 = p3
 		}
 	}
+	if vParam("SUBS", 0) == 1 {
+		// a client subscribes to and then unsubscribes from one of the topics (or a level below it):
+		// pruning of empty index nodes must not drop a retained message
+		st := t1
+		if vBool() {
+			st = t2
+		}
+		if vBool() {
+			st = st + "/z"
+		}
+		x.Subscribe("c9", packets.Subscription{Filter: st})
+		x.Unsubscribe(st, "c9")
+	}
 	f := vC01Filter(1 + vLen(vParam("F", 3)-1))
 	got := x.Messages(f)
 	n1, n2, other := 0, 0, 0
